@@ -347,6 +347,7 @@ func c04Scenarios(tier string) []Scenario {
 	}
 	out = append(out, c04IsolationScenario(false), c04IsolationScenario(true))
 	out = append(out, c04CancelledScenario(false), c04CancelledScenario(true))
+	out = append(out, heldAcrossClunkScenario("C04"))
 	return out
 }
 
@@ -377,9 +378,147 @@ func c04IsolationScenario(dotu bool) Scenario {
 func init() {
 	register(&Property{ID: "C04", Level: "model_checking",
 		Technique: "explicit-state breadth-first search over protocol histories of a Go reference fid-table model, every transition executed on the real server (replay of the history on a fresh instance) and compared",
-		Rule:      "alphabet of ~60 requests over fid numbers {0,1,2} (attach/auth incl. bad afid, walks full/partial/failing/in place/to a used fid, open/create/read/write/stat/wstat/clunk/remove, each with implementation success or error); BFS to the stated depth from the empty connection, states deduplicated on model state + digest of the server's own fid table; after every event Tstat probes on each fid number; two-connection isolation runs; histories in which a request parked in the implementation is cancelled by Tflush (8 request kinds) and the table is probed, clunked and probed again. states = distinct canonical states, transitions = histories executed",
+		Rule:      "alphabet of ~60 requests over fid numbers {0,1,2} (attach/auth incl. bad afid, walks full/partial/failing/in place/to a used fid, open/create/read/write/stat/wstat/clunk/remove, each with implementation success or error); BFS to the stated depth from the empty connection, states deduplicated on model state + digest of the server's own fid table; after every event Tstat probes on each fid number; two-connection isolation runs; histories in which a request parked in the implementation is cancelled by Tflush (8 request kinds) and the table is probed, clunked and probed again; histories in which a request is held on a fid while the fid is clunked / removed and its number bound again, then completes (the server's own answers are the history). states = distinct canonical states, transitions = histories executed",
 		Assumptions: []string{"sequential histories on the default schedule (concurrency around fid destruction is explored by C07/C11)", "the reference model (harness/fidmodel.go) is a correct reading of the protocol rules"},
 		Scenarios:   c04Scenarios, QuickS: 100, ThoroughS: 1500})
+}
+
+// heldAcrossClunk: a request is held by the implementation on fid 1 while the client
+// clunks (or removes) fid 1 and at once binds the number again; then the held request
+// completes. Whatever the server answered in between is the history: a fid whose
+// binding was acknowledged stays valid (the completion of the old request is an
+// unrelated operation), a number whose binding was refused is free once the old fid
+// is gone, and at the disconnect every fid the implementation was shown is reported
+// destroyed exactly once. Returns a description of what went wrong.
+func heldAcrossClunk(held, drop string, dotu bool, maxpend int) string {
+	var bad string
+	body := func() {
+		s := newSess(SrvOpt{Msize: 256, Dotu: dotu, Maxpend: maxpend})
+		var m *wire.Msg
+		switch held {
+		case "read":
+			s.rpcOK(twalk(s.tag(), 0, 1, "f"), wire.Rwalk)
+			s.rpcOK(&wire.Msg{Type: wire.Topen, Tag: s.tag(), Fid: 1, Mode: 0}, wire.Ropen)
+			m = &wire.Msg{Type: wire.Tread, Tag: 50, Fid: 1, Count: 8}
+		case "stat":
+			s.rpcOK(twalk(s.tag(), 0, 1, "f"), wire.Rwalk)
+			m = &wire.Msg{Type: wire.Tstat, Tag: 50, Fid: 1}
+		case "walk":
+			s.rpcOK(twalk(s.tag(), 0, 1, "d"), wire.Rwalk)
+			m = twalk(50, 1, 2, "h")
+		case "write":
+			s.rpcOK(twalk(s.tag(), 0, 1, "g"), wire.Rwalk)
+			s.rpcOK(&wire.Msg{Type: wire.Topen, Tag: s.tag(), Fid: 1, Mode: 1}, wire.Ropen)
+			m = &wire.Msg{Type: wire.Twrite, Tag: 50, Fid: 1, Data: []byte("xyz")}
+		}
+		gate := vs.NewSem(0)
+		s.fs.Script[reqKey{0, 50, 0}] = &Action{Gate: gate}
+		s.c.Send(dotu, m)
+		vs.Idle()
+		dt := uint8(wire.Tclunk)
+		if drop == "remove" {
+			dt = wire.Tremove
+		}
+		rd := s.c.Rpc(&wire.Msg{Type: dt, Tag: s.tag(), Fid: 1})
+		if rd == nil {
+			bad = "T" + drop + " of the fid with a request in flight was never answered"
+			return
+		}
+		dropped := rd.Type == dt+1
+		to := "d" // a file the Tremove above cannot have taken away
+		if held == "walk" {
+			to = "g"
+		}
+		rb := s.c.Rpc(twalk(s.tag(), 0, 1, to))
+		if rb == nil {
+			bad = "binding the number again was never answered"
+			return
+		}
+		rebound := rb.Type == wire.Rwalk
+		gate.Release()
+		vs.Idle()
+		stat := func(f uint32) string {
+			r := s.c.Rpc(&wire.Msg{Type: wire.Tstat, Tag: s.tag(), Fid: f})
+			switch {
+			case r == nil:
+				return "none"
+			case r.Type == wire.Rstat:
+				return "valid:" + r.Stat.Name
+			}
+			return r.Ename
+		}
+		got := stat(1)
+		switch {
+		case rebound && got != "valid:"+to:
+			bad = fmt.Sprintf("fid 1 was bound again (Rwalk) while a %s on the old fid 1 was still held; once that %s completed, Tstat on fid 1 answers %q", held, held, got)
+			return
+		case !rebound && dropped && got != "unknown fid":
+			bad = fmt.Sprintf("fid 1 was %sed (acknowledged), binding it again was refused (%s); after the held %s completed Tstat on fid 1 answers %q", drop, rb.Ename, held, got)
+			return
+		}
+		if !rebound && dropped {
+			if r := s.c.Rpc(twalk(s.tag(), 0, 1, to)); r == nil || r.Type != wire.Rwalk {
+				bad = fmt.Sprintf("after the %s and the completion of the held %s the number 1 still cannot be bound: %v", drop, held, r)
+				return
+			}
+		}
+		// disconnect: everything shown is destroyed exactly once
+		s.c.End.Close()
+		vs.Idle()
+		destroyed := map[int]int{}
+		for _, e := range s.fs.Log {
+			if e.Kind == "destroy" && e.Token != 0 {
+				destroyed[e.Token]++
+			}
+		}
+		for tok, conn := range s.fs.tokenConn {
+			if conn != 0 {
+				continue
+			}
+			if destroyed[tok] != 1 {
+				bad = fmt.Sprintf("after the disconnect FidDestroy was reported %d times for a fid the implementation had been shown (token %d; held %s, %s, number bound again: %v)\n%s", destroyed[tok], tok, held, drop, rebound, s.fs.logString())
+				return
+			}
+		}
+	}
+	x := vs.Run(nil, body, vs.Options{})
+	if len(x.Panics) > 0 {
+		return "panic: " + x.Panics[0].Value + " in " + x.Panics[0].Frame
+	}
+	if len(x.Fails) > 0 && bad == "" {
+		return "harness: " + x.Fails[0]
+	}
+	return bad
+}
+
+func heldAcrossClunkScenario(prop string) Scenario {
+	return Scenario{Name: "held-request-across-clunk-and-rebind", Run: func(rc *RunCtx) *Result {
+		res := &Result{Exhaustive: true}
+		seen := map[string]bool{}
+		for _, held := range []string{"read", "stat", "walk", "write"} {
+			for _, drop := range []string{"clunk", "remove"} {
+				for _, dotu := range []bool{false, true} {
+					for _, mp := range []int{0, 2} {
+						bad := heldAcrossClunk(held, drop, dotu, mp)
+						res.Evals++
+						res.Nontrivial++
+						res.States++
+						res.Traces++
+						res.Transitions += 7
+						if bad != "" {
+							sig := prop + "/held-across-" + drop + "/" + sigWords(bad)
+							if !seen[sig] {
+								seen[sig] = true
+								res.Findings = append(res.Findings, Finding{Sig: sig, Msg: fmt.Sprintf("held %s, %s, dotu=%v, maxpend=%d: %s", held, drop, dotu, mp, bad)})
+							}
+						}
+					}
+				}
+			}
+		}
+		res.Samples = append(res.Samples, "request held on fid 1 (read/stat/walk/write) x Tclunk/Tremove of fid 1 x number bound again x held request completes x probes x disconnect, both dialects, Maxpend 0/2")
+		return res
+	}}
 }
 
 // A request cancelled by Tflush while the implementation holds it must leave the
